@@ -454,6 +454,203 @@ func isIoWriter(t types.Type) bool {
 	return false
 }
 
+// WRAP.writer is decided on an inlined view of the Writer form: module functions it calls (a helper that does the writing, the
+// Raw sibling it delegates to) are followed up to depth 3, and every value is resolved across those calls to a term over the
+// Writer form's own parameters and the results of the paired encoder. What is required is independent of how the code is cut into
+// functions: one call of the paired encoder with the receiver and the non-writer parameters in order; one Write, on the writer
+// parameter, of exactly the encoder's bytes, only after the encoder's error was tested nil; the Write's error returned; and (Raw
+// forms) the encoder's bytes returned.
+
+type wwFrame struct {
+	fn     *ssa.Function
+	parent *wwFrame
+	call   ssa.CallInstruction // the call in the parent that this frame is the callee of
+	depth  int
+}
+
+type wwTerm struct {
+	kind string // "param", "enc", "write", "const", "other"
+	idx  int    // parameter index / result index
+	v    ssa.Value
+	fr   *wwFrame
+}
+
+type wwEvent struct {
+	fr   *wwFrame
+	call ssa.CallInstruction
+}
+
+type wwWalker struct {
+	p       *Prog
+	enc     *ssa.Function
+	root    *wwFrame
+	encs    []wwEvent
+	writes  []wwEvent
+	frames  map[ssa.CallInstruction]map[*wwFrame]*wwFrame
+	other   int // uses of the writer other than Write / being handed to a followed function
+	onStack map[*ssa.Function]bool
+}
+
+func (w *wwWalker) walk(fr *wwFrame) {
+	w.onStack[fr.fn] = true
+	defer delete(w.onStack, fr.fn)
+	eachInstr(fr.fn, func(b *ssa.BasicBlock, in ssa.Instruction) {
+		ci, ok := in.(ssa.CallInstruction)
+		if !ok {
+			return
+		}
+		c := ci.Common()
+		if c.IsInvoke() {
+			if isIoWriter(c.Value.Type()) && w.isWriter(c.Value, fr) {
+				if c.Method.Name() == "Write" {
+					w.writes = append(w.writes, wwEvent{fr, ci})
+				} else {
+					w.other++
+				}
+			}
+			return
+		}
+		g := staticCallee(c)
+		if g == w.enc {
+			w.encs = append(w.encs, wwEvent{fr, ci})
+			return
+		}
+		if g != nil && w.p.InModule(g) && len(g.Blocks) > 0 && fr.depth < 3 && !w.onStack[g] {
+			sub := &wwFrame{fn: g, parent: fr, call: ci, depth: fr.depth + 1}
+			if w.frames[ci] == nil {
+				w.frames[ci] = map[*wwFrame]*wwFrame{}
+			}
+			w.frames[ci][fr] = sub
+			w.walk(sub)
+			return
+		}
+		for _, a := range c.Args {
+			if isIoWriter(a.Type()) && w.isWriter(a, fr) {
+				w.other++
+			}
+		}
+	})
+}
+
+func (w *wwWalker) isWriter(v ssa.Value, fr *wwFrame) bool {
+	for _, t := range w.resolve(v, fr, 0) {
+		if t.kind == "param" && isIoWriter(w.root.fn.Params[t.idx].Type()) {
+			return true
+		}
+	}
+	return false
+}
+
+// resolve: the terms a value can stand for.
+func (w *wwWalker) resolve(v ssa.Value, fr *wwFrame, depth int) []wwTerm {
+	if depth > 12 {
+		return []wwTerm{{kind: "other", v: v, fr: fr}}
+	}
+	switch x := v.(type) {
+	case *ssa.Parameter:
+		for i, prm := range fr.fn.Params {
+			if prm == x {
+				if fr.parent == nil {
+					return []wwTerm{{kind: "param", idx: i, v: v, fr: fr}}
+				}
+				args := fr.call.Common().Args
+				if i < len(args) {
+					return w.resolve(args[i], fr.parent, depth+1)
+				}
+			}
+		}
+	case *ssa.Const:
+		return []wwTerm{{kind: "const", v: v, fr: fr}}
+	case *ssa.Phi:
+		var out []wwTerm
+		for _, e := range x.Edges {
+			if e != v {
+				out = append(out, w.resolve(e, fr, depth+1)...)
+			}
+		}
+		return out
+	case *ssa.ChangeInterface:
+		return w.resolve(x.X, fr, depth+1)
+	case *ssa.ChangeType:
+		return w.resolve(x.X, fr, depth+1)
+	case *ssa.Extract:
+		if ci, ok := x.Tuple.(ssa.CallInstruction); ok {
+			return w.resolveResult(ci, x.Index, fr, depth)
+		}
+	case *ssa.Call:
+		return w.resolveResult(x, 0, fr, depth)
+	case *ssa.Slice:
+		// b[:] of the same bytes
+		if x.Low == nil && x.High == nil {
+			return w.resolve(x.X, fr, depth+1)
+		}
+	}
+	return []wwTerm{{kind: "other", v: v, fr: fr}}
+}
+
+func (w *wwWalker) resolveResult(ci ssa.CallInstruction, idx int, fr *wwFrame, depth int) []wwTerm {
+	c := ci.Common()
+	if !c.IsInvoke() && staticCallee(c) == w.enc {
+		return []wwTerm{{kind: "enc", idx: idx, v: ci.Value(), fr: fr}}
+	}
+	if c.IsInvoke() && c.Method.Name() == "Write" {
+		return []wwTerm{{kind: "write", idx: idx, v: ci.Value(), fr: fr}}
+	}
+	if sub := w.frames[ci][fr]; sub != nil {
+		var out []wwTerm
+		eachInstr(sub.fn, func(b *ssa.BasicBlock, in ssa.Instruction) {
+			if ret, ok := in.(*ssa.Return); ok && idx < len(ret.Results) {
+				out = append(out, w.resolve(ret.Results[idx], sub, depth+1)...)
+			}
+		})
+		return out
+	}
+	return []wwTerm{{kind: "other", v: ci.Value(), fr: fr}}
+}
+
+// errNilBefore: in its own frame and in every enclosing frame the point is reached only over an edge on which a value that
+// resolves to the encoder's error was tested nil.
+func (w *wwWalker) errNilBefore(ev wwEvent) bool {
+	fr := ev.fr
+	blk := ev.call.Block()
+	for fr != nil {
+		for _, g := range dominatingGuards(blk) {
+			ng := normGuard(g)
+			bo, ok := ng.Cond.(*ssa.BinOp)
+			if !ok || (bo.Op != token.EQL && bo.Op != token.NEQ) {
+				continue
+			}
+			var side ssa.Value
+			if isNilConst(bo.Y) {
+				side = bo.X
+			} else if isNilConst(bo.X) {
+				side = bo.Y
+			} else {
+				continue
+			}
+			if (bo.Op == token.EQL) != ng.Pol {
+				continue // this edge is the non-nil side
+			}
+			all := true
+			ts := w.resolve(side, fr, 0)
+			for _, t := range ts {
+				if !(t.kind == "enc" && t.idx == 1) {
+					all = false
+				}
+			}
+			if all && len(ts) > 0 {
+				return true
+			}
+		}
+		if fr.parent == nil {
+			break
+		}
+		blk = fr.call.Block()
+		fr = fr.parent
+	}
+	return false
+}
+
 func ruleWrapWriter(p *Prog, r *Report) {
 	const rule = "WRAP.writer"
 	for _, pr := range writerPairs {
@@ -463,145 +660,135 @@ func ruleWrapWriter(p *Prog, r *Report) {
 			continue
 		}
 		pos := p.Pos(fn.Pos())
-		var wparam *ssa.Parameter
-		for _, prm := range fn.Params {
+		wi := -1
+		for i, prm := range fn.Params {
 			if isIoWriter(prm.Type()) {
-				wparam = prm
+				wi = i
 			}
 		}
-		if wparam == nil {
+		if wi < 0 {
 			r.Unknown(rule, pr[0], "writer parameter", pos, "no io.Writer parameter")
 			continue
 		}
-		// the single encoder call
-		var encCalls []ssa.CallInstruction
-		var writes []ssa.CallInstruction
-		var otherWriterUses int
-		eachInstr(fn, func(b *ssa.BasicBlock, in ssa.Instruction) {
-			ci, ok := in.(ssa.CallInstruction)
-			if !ok {
-				return
-			}
-			c := ci.Common()
-			if staticCallee(c) == enc {
-				encCalls = append(encCalls, ci)
-			}
-			if c.IsInvoke() && c.Value == ssa.Value(wparam) {
-				if c.Method.Name() == "Write" {
-					writes = append(writes, ci)
-				} else {
-					otherWriterUses++
-				}
-			} else {
-				for _, a := range c.Args {
-					if a == ssa.Value(wparam) {
-						otherWriterUses++
-					}
-				}
-			}
-		})
-		if len(encCalls) != 1 {
-			r.Bad(rule, pr[0], "paired encoder call", pos, fmt.Sprintf("expected exactly one call of %s, found %d", pr[1], len(encCalls)))
+		w := &wwWalker{p: p, enc: enc, frames: map[ssa.CallInstruction]map[*wwFrame]*wwFrame{}, onStack: map[*ssa.Function]bool{}}
+		w.root = &wwFrame{fn: fn}
+		w.walk(w.root)
+		if len(w.encs) != 1 {
+			r.Bad(rule, pr[0], "paired encoder call", pos, fmt.Sprintf("expected exactly one call of %s (directly or through the functions the Writer form delegates to), found %d", pr[1], len(w.encs)))
 			continue
 		}
-		ec := encCalls[0]
+		ec := w.encs[0]
 		// receiver and arguments forwarded in order
 		okArgs := true
-		var eargs []ssa.Value = ec.Common().Args
-		var fwd []ssa.Value
-		for _, prm := range fn.Params {
-			if prm != wparam {
-				fwd = append(fwd, prm)
+		var fwd []int
+		for i := range fn.Params {
+			if i != wi {
+				fwd = append(fwd, i)
 			}
 		}
+		eargs := ec.call.Common().Args
 		if len(eargs) != len(fwd) {
 			okArgs = false
 		} else {
-			for i := range eargs {
-				if !derivesFrom(eargs[i], fwd[i]) {
+			for i, a := range eargs {
+				ts := w.resolve(a, ec.fr, 0)
+				if len(ts) == 0 {
 					okArgs = false
+				}
+				for _, t := range ts {
+					if !(t.kind == "param" && t.idx == fwd[i]) {
+						// in the Writer form itself a derived value (rootTag...) of the parameter counts as before
+						if ec.fr.parent == nil && derivesFrom(a, fn.Params[fwd[i]]) {
+							continue
+						}
+						okArgs = false
+					}
 				}
 			}
 		}
 		if okArgs {
-			r.OK(rule, pr[0], "arguments forwarded to "+pr[1], p.Pos(ec.Pos()), "receiver and all non-writer parameters in order")
+			r.OK(rule, pr[0], "arguments forwarded to "+pr[1], p.Pos(ec.call.Pos()), "receiver and all non-writer parameters in order")
 		} else {
-			r.Bad(rule, pr[0], "arguments forwarded to "+pr[1], p.Pos(ec.Pos()), "the paired encoder is not called on the same receiver with the same arguments in order")
+			r.Bad(rule, pr[0], "arguments forwarded to "+pr[1], p.Pos(ec.call.Pos()), "the paired encoder is not called on the same receiver with the same arguments in order")
 		}
-		res := resultsOf(ec)
-		// the write may be delegated to an unexported helper that writes its bytes argument to its writer argument exactly once
-		if len(writes) == 0 && otherWriterUses == 1 {
-			if ok, why := p.delegatedWrite(fn, wparam, res[0], errResult(ec)); ok {
-				r.OK(rule, pr[0], "Write operand", pos, why)
-				if fn.Signature.Results().Len() == 2 {
-					okRet := true
-					eachInstr(fn, func(b *ssa.BasicBlock, in ssa.Instruction) {
-						if ret, ok := in.(*ssa.Return); ok && ret.Results[0] != res[0] {
-							okRet = false
-						}
-					})
-					if okRet {
-						r.OK(rule, pr[0], "Raw result", pos, "every return hands back the encoder's bytes")
-					} else {
-						r.Bad(rule, pr[0], "Raw result", pos, "a return does not hand back the bytes that were written")
+		if len(w.writes) != 1 || w.other != 0 {
+			r.Bad(rule, pr[0], "exactly one Write", pos, fmt.Sprintf("found %d Write calls and %d other uses of the writer", len(w.writes), w.other))
+			continue
+		}
+		wr := w.writes[0]
+		okData := len(wr.call.Common().Args) == 1
+		if okData {
+			ts := w.resolve(wr.call.Common().Args[0], wr.fr, 0)
+			if len(ts) == 0 {
+				okData = false
+			}
+			for _, t := range ts {
+				if !(t.kind == "enc" && t.idx == 0) {
+					okData = false
+				}
+			}
+		}
+		if okData {
+			r.OK(rule, pr[0], "Write operand", p.Pos(wr.call.Pos()), "the unmodified first result of "+pr[1])
+		} else {
+			r.Bad(rule, pr[0], "Write operand", p.Pos(wr.call.Pos()), "the bytes handed to the writer are not exactly the bytes "+pr[1]+" returned")
+		}
+		if w.errNilBefore(wr) {
+			r.OK(rule, pr[0], "encoder error tested before Write", p.Pos(wr.call.Pos()), "dominated by err==nil")
+		} else {
+			r.Bad(rule, pr[0], "encoder error tested before Write", p.Pos(wr.call.Pos()), "bytes may be written although the encoder failed")
+		}
+		// Write not inside a loop (in any frame on the way)
+		inLoop := false
+		for fr, blk := wr.fr, wr.call.Block(); fr != nil; {
+			if reachableFromSuccs(blk)[blk] {
+				inLoop = true
+			}
+			if fr.parent == nil {
+				break
+			}
+			blk = fr.call.Block()
+			fr = fr.parent
+		}
+		if inLoop {
+			r.Bad(rule, pr[0], "Write not repeated", p.Pos(wr.call.Pos()), "the Write call is inside a loop")
+		}
+		// results of the Writer form: the last is the error (the encoder's or the Write's), Raw forms return the encoder's bytes first
+		nres := fn.Signature.Results().Len()
+		okRaw, okErr := true, false
+		eachInstr(fn, func(b *ssa.BasicBlock, in ssa.Instruction) {
+			ret, ok := in.(*ssa.Return)
+			if !ok {
+				return
+			}
+			if nres == 2 {
+				ts := w.resolve(ret.Results[0], w.root, 0)
+				if len(ts) == 0 {
+					okRaw = false
+				}
+				for _, t := range ts {
+					if !(t.kind == "enc" && t.idx == 0) {
+						okRaw = false
 					}
 				}
-				continue
 			}
-		}
-		if len(writes) != 1 || otherWriterUses != 0 {
-			r.Bad(rule, pr[0], "exactly one Write", pos, fmt.Sprintf("found %d Write calls and %d other uses of the writer", len(writes), otherWriterUses))
-		} else {
-			w := writes[0]
-			if len(w.Common().Args) == 1 && res[0] != nil && w.Common().Args[0] == res[0] {
-				r.OK(rule, pr[0], "Write operand", p.Pos(w.Pos()), "the unmodified first result of "+pr[1])
-			} else {
-				r.Bad(rule, pr[0], "Write operand", p.Pos(w.Pos()), "the bytes handed to the writer are not exactly the bytes "+pr[1]+" returned")
-			}
-			if errCheckedBefore(errResult(ec), w.Block()) {
-				r.OK(rule, pr[0], "encoder error tested before Write", p.Pos(w.Pos()), "dominated by err==nil")
-			} else {
-				r.Bad(rule, pr[0], "encoder error tested before Write", p.Pos(w.Pos()), "bytes may be written although the encoder failed")
-			}
-			// Write not inside a loop
-			if reachableFromSuccs(w.Block())[w.Block()] {
-				r.Bad(rule, pr[0], "Write not repeated", p.Pos(w.Pos()), "the Write call is inside a loop")
-			}
-		}
-		// Raw forms return the same bytes
-		if fn.Signature.Results().Len() == 2 {
-			okRet := true
-			eachInstr(fn, func(b *ssa.BasicBlock, in ssa.Instruction) {
-				if ret, ok := in.(*ssa.Return); ok {
-					if ret.Results[0] != res[0] {
-						okRet = false
-					}
+			for _, t := range w.resolve(ret.Results[nres-1], w.root, 0) {
+				if t.kind == "write" && t.idx == 1 {
+					okErr = true
 				}
-			})
-			if okRet {
+			}
+		})
+		if nres == 2 {
+			if okRaw {
 				r.OK(rule, pr[0], "Raw result", pos, "every return hands back the encoder's bytes")
 			} else {
 				r.Bad(rule, pr[0], "Raw result", pos, "a return does not hand back the bytes that were written")
 			}
 		}
-		// the error of Write is returned
-		wErrOK := false
-		if len(writes) == 1 {
-			ev := errResult(writes[0])
-			eachInstr(fn, func(b *ssa.BasicBlock, in ssa.Instruction) {
-				if ret, ok := in.(*ssa.Return); ok {
-					for _, op := range ret.Results {
-						if ev != nil && sameThroughPhi(op, ev) {
-							wErrOK = true
-						}
-					}
-				}
-			})
-			if wErrOK {
-				r.OK(rule, pr[0], "Write error returned", pos, "")
-			} else {
-				r.Bad(rule, pr[0], "Write error returned", pos, "the error of the Write call is dropped")
-			}
+		if okErr {
+			r.OK(rule, pr[0], "Write error returned", pos, "")
+		} else {
+			r.Bad(rule, pr[0], "Write error returned", pos, "the error of the Write call is dropped")
 		}
 	}
 	r.Floor(rule, 8*4)
